@@ -97,7 +97,7 @@ type step struct {
 }
 
 var chanPool = []string{"a", "b", "ab", "c"}
-var patPool = []string{"a*", "?b", "[ab]*", "*b", "c?"}
+var patPool = []string{"a*", "?b", "[ab]*", "*b", "c?", "a", "ab"} // incl. patterns without a wildcard whose text equals a channel name
 
 // matches: how many of the connection's subscriptions match channel ch.
 func (st subState) matches(ch string) int {
@@ -483,6 +483,20 @@ func runCase(t *rapid.T, replay []step) {
 						want++
 					}
 				}
+				if want == 0 {
+					// nobody is subscribed to the channel; if the same text is subscribed as a pattern, the number of
+					// its subscribers is an accepted answer too (an existing test expects NUMSUB to count a pattern
+					// entry when it is asked for by its text)
+					asPattern := 0
+					for _, st := range w.tab {
+						if st.pats[flat[i]] {
+							asPattern++
+						}
+					}
+					if asPattern > 0 && flat[i+1] == strconv.Itoa(asPattern) {
+						continue
+					}
+				}
 				if flat[i+1] != strconv.Itoa(want) {
 					fail("PUBSUB NUMSUB reports %s subscribers for channel %q, the subscription table has %d", flat[i+1], flat[i], want)
 				}
@@ -507,7 +521,9 @@ func runCase(t *rapid.T, replay []step) {
 			got, _ := r.Val.Strings()
 			gotSet := map[string]bool{}
 			for _, g := range got {
-				if !strings.HasPrefix(g, "zz-sentinel-") && !pats[g] {
+				// (the server also lists its pattern entries here, which is not asserted either way; a name that is
+				// both a subscribed pattern and a subscribed channel has to be listed)
+				if !strings.HasPrefix(g, "zz-sentinel-") && (!pats[g] || chans[g]) {
 					gotSet[g] = true
 				}
 			}
